@@ -11,9 +11,25 @@ from vlib.env import cirbo_core
 from vlib.runner import Sub, Violation
 
 
+def deep_netlist(d, flip):
+    """A chain g_i = AND(a, g_{i-1}) (operands in either order) of d levels with a tap in the middle and one unreachable gate."""
+    gates = [['a', 'INPUT', []], ['b', 'INPUT', []], ['g0', 'OR', ['a', 'b']]]
+    for i in range(1, d + 1):
+        gates.append([f'g{i}', 'AND', ['a', f'g{i - 1}'] if (i + flip) % 3 else [f'g{i - 1}', 'a']])
+    gates += [['s', 'NOT', [f'g{d // 2}']], ['top', 'AND', ['s', f'g{d}']], ['lonely', 'NOT', ['b']]]
+    return {'inputs': ['a', 'b'], 'gates': gates, 'outputs': ['top'], 'style': 'plain'}
+
+
 @st.composite
 def cases(draw, tier):
     big = tier == 'thorough'
+    if draw(st.integers(0, 39)) == 0:
+        # deep circuits: the traversal's work list grows to hundreds or thousands of labels
+        nl = deep_netlist(draw(st.sampled_from([300, 520, 700, 1100, 1500, 3000] + ([6000] if big else []))), draw(st.integers(0, 2)))
+        return {'nl': nl, 'route': draw(gen.routes(nl)), 'start': draw(st.sampled_from([None, None, [len(nl['gates']) - 2]])),
+                'start_as': draw(st.sampled_from(['list', 'tuple', 'live'])), 'mode': draw(st.sampled_from(['DFS', 'DFS', 'BFS'])),
+                'inverse': draw(st.booleans()), 'hooks': draw(st.integers(0, 31)), 'topsort_unvisited': draw(st.booleans()),
+                'peek': draw(st.sampled_from(['none', 'neigh']))}
     nl = draw(gen.netlists(min_inputs=0, max_inputs=5, max_gates=30 if big else 18, max_arity=4,
                            styles=('plain', 'digits', 'mixed'), max_outputs=4, recency_bias=draw(st.booleans())))
     n_all = len(nl['gates'])
@@ -198,6 +214,8 @@ def check_traverse(case):
     if reach and len(reach) < len(labs):
         cls.add('strict_subset')
     cls.add(f'hooks={bin(hooks).count("1")}')
+    if len(labs) > 1030:
+        cls.add('gates>1030')
     if hooks & 15:
         cls.add('peek:' + peek_mode)
     return {'nt': shared and 0 < len(reach) < len(labs), 'cls': cls, 'count': extra,
@@ -284,11 +302,11 @@ SPEC = {
              'directions. Cyclic netlists (operand rewired to itself/a later gate, parsed from bench text): cycle '
              'check raises iff own DFS finds a cycle reachable from the outputs. Non-trivial: some gate has >=2 '
              'distinct users and the start set reaches a strict non-empty subset; for cycles: a cycle exists.'
-             " Added during the build: hooks that read their own / neighbouring / all entries of the state mapping, tuple and live start sets, circuits looked at in the middle of their construction (route 'observe')."),
+             " Added during the build: deep chains of 300-3000 (6000) levels, hooks that read their own / neighbouring / all entries of the state mapping, tuple and live start sets, circuits looked at in the middle of their construction (route 'observe')."),
     'assumptions': ['own reachability / cycle detection in props/c20.py'],
     'subs': [Sub('traverse', cases, check_traverse, {'quick': 3000, 'thorough': 250000}),
              Sub('cycles', cyclic_cases, check_cycles, {'quick': 1500, 'thorough': 100000})],
-    'required_classes': {'traverse': ['DFS', 'BFS', 'inverse', 'forward', 'start:list', 'start:empty', 'start:tuple',
+    'required_classes': {'traverse': ['gates>1030', 'DFS', 'BFS', 'inverse', 'forward', 'start:list', 'start:empty', 'start:tuple',
                                       'start_repeats', 'dup_operand', 'strict_subset'],
                          'cycles': ['cycle_reachable', 'cycle_unreachable', 'acyclic']},
 }
